@@ -33,9 +33,16 @@ class C01Facade(Harness):
                     continue
                 yield (f"h1-N{n}-M{m}-{spec}-w{wk}-k{int(keep)}-d{dt}",
                        dict(N=n, M=m, spec=spec, weights=wk, keep_missed=keep, dtype=dt, nan=(n <= 2)))
+        # multi-dimensional data in non-C memory layouts (transposed / strided / reversed views) with element-wise weights
+        for layout in ("transposed", "strided", "reversed"):
+            for dropna in (True, False):
+                yield (f"h1-layout-{layout}-dropna{int(dropna)}",
+                       dict(N=4, M=1, spec="edges", weights="int", keep_missed=True, dtype=None, nan=dropna, layout=layout, dropna=dropna))
 
     def declare(self, cx, p):
         N, M = p["N"], p["M"]
+        if p.get("layout"):
+            return self._declare_layout(cx, p)
         x = {"v": cx.reals("v", N, nan=p["nan"])}
         if p["weights"] == "int":
             x["w"] = cx.ints("w", N, lo=0)
@@ -56,9 +63,29 @@ class C01Facade(Harness):
             cx.define("gapped", z3.Not(consecutive(L, R)))
         return x
 
+    def _declare_layout(self, cx, p):
+        x = {"v": cx.reals("v", 4, nan=p["dropna"]), "w": cx.ints("w", 4, lo=0), "e": cx.reals("e", 2)}
+        if cx.sym:
+            cx.assume(x["e"][0] < x["e"][1])
+        return x
+
     def drive(self, E, p, x):
         np = E.np
         h1 = E.mod("physt._facade").h1
+        if p.get("layout"):
+            v, w = x["v"], x["w"]
+            base = np.asarray([[v[0], v[1]], [v[2], v[3]]], dtype=float)
+            wb = np.asarray([[w[0], w[1]], [w[2], w[3]]], dtype=int)
+            if p["layout"] == "transposed":      # logical element order v0 v2 v1 v3, memory order v0 v1 v2 v3
+                data, wts = base.T, wb.T
+            elif p["layout"] == "strided":
+                data, wts = np.asarray([[v[0], 0.0, v[1], 0.0], [v[2], 0.0, v[3], 0.0]], dtype=float)[:, ::2], wb
+            else:
+                data, wts = base[::-1], wb[::-1]
+            h = E.attempt(h1, data, np.asarray(x["e"]), weights=wts, dropna=p["dropna"])
+            if isinstance(h, Raised):
+                return {"raised": h}
+            return snap1d(E, h, stats=True)
         if p["spec"] == "edges":
             bins = np.asarray(x["e"])
         else:
@@ -76,6 +103,10 @@ class C01Facade(Harness):
 
     def oracle(self, cx, p, x, obs):
         N, M = p["N"], p["M"]
+        if p.get("layout") and not p["dropna"] and obs.get("raised") is not None:
+            # without dropna a NaN must be refused - not applicable here (values are not NaN-able then)
+            yield "no_exception", False
+            return
         v = [cx.t(i) for i in x["v"]]
         nan = [cx.isnan(i) for i in x["v"]]
         w = [cx.t(i) for i in x["w"]] if "w" in x else [z3.IntVal(1)] * N
